@@ -80,20 +80,20 @@ let raw_n (parts : string list) : rawN =
   | _ -> failwith "bad normal raw token"
 let raw_s (parts : string list) : rawS =
   match parts with
-  | ["Literal"] -> SLiteral | ["DQuote"] -> SDQuote | ["Interp"] -> SInterp
+  | ["Literal"] -> SLiteral false | ["LiteralCR"] -> SLiteral true | ["DQuote"] -> SDQuote | ["Interp"] -> SInterp
   | ["EscChar"; v] -> SEscChar (v = "1") | ["EscAscii"; v] -> SEscAscii (v = "1") | ["Error"] -> SError
   | _ -> failwith "bad string raw token"
 let raw_m (parts : string list) : rawM =
   match parts with
-  | ["Literal"] -> MLiteral | ["CandEnd"; n] -> MCandEnd (z_of_string n) | ["CandInterp"; n] -> MCandInterp (z_of_string n)
-  | ["QCandInterp"; n] -> MQCandInterp (z_of_string n) | ["Error"] -> MError | ["Buffered"] -> MLiteral
+  | ["Literal"] -> MLiteral false | ["LiteralCR"] -> MLiteral true | ["CandEnd"; n] -> MCandEnd (z_of_string n) | ["CandInterp"; n] -> MCandInterp (z_of_string n)
+  | ["QCandInterp"; n] -> MQCandInterp (z_of_string n) | ["Error"] -> MError | ["Buffered"] -> MLiteral false
   | _ -> failwith "bad multistring raw token"
 
 let sym_of (s : string) : sym =
   match String.split_on_char ':' s with
-  | "N" :: r -> { sN = raw_n r; sS = SLiteral; sM = MLiteral }
-  | "S" :: r -> { sN = NOther; sS = raw_s r; sM = MLiteral }
-  | "M" :: r -> { sN = NOther; sS = SLiteral; sM = raw_m r }
+  | "N" :: r -> { sN = raw_n r; sS = SLiteral false; sM = MLiteral false }
+  | "S" :: r -> { sN = NOther; sS = raw_s r; sM = MLiteral false }
+  | "M" :: r -> { sN = NOther; sS = SLiteral false; sM = raw_m r }
   | _ -> failwith "bad symbol"
 
 let show_rawn = function
